@@ -233,6 +233,26 @@ example : contextCheck ⟨[(0, [1]), (1, [2, 3]), (2, [1])],
 example : contextCheck ⟨[(0, [1]), (1, [2]), (2, [1]), (4, [3])],
     fun n => if n = 0 then .const else if n = 3 then .ctx else .func⟩ = .ok none := by decide
 
+/-- The shape a pass "in component order" gets wrong: the context read sits in
+one member `r` of a cycle of mutually recursive functions and the constant
+calls another member `e` (which reaches `r`).  In whatever order the names are
+visited — the SCC pass may enter the cycle at `r` and list it last —,
+`compile` rejects with nothing evaluated. -/
+theorem context_rejected_through_cycle (g : Graph) (comps : List (List Nat)) (ht : tarjan g = .ok comps)
+    (hs : selfEdge g g.edges = none) (hm : mixedComponent g comps = none)
+    (c e r x : Nat) (hc : c ∈ g.keys) (hk : g.kind c = .const) (hce : Edge g c e)
+    (her : Reach g e r) (hrx : Edge g r x) (hx : g.kind x = .ctx) :
+    ∃ c', compile g = .ok (.rejected (.usesContext c') []) :=
+  (context_rejected g comps ht hs hm).1.1 ⟨c, hc, hk, x, .step hce (her.trans (.single hrx)), hx⟩
+
+/-- the witness: reader f0 ⇄ f1, constant 2 → f1, f0 → ctx 3; `tarjan` enters the
+cycle at the reader (components `[[3], [1, 0], [2]]`: a single pass over them
+sees `f1` before `f0` is known to read the context) -/
+example : tarjan ⟨[(0, [1, 3]), (1, [0]), (2, [1])],
+    fun n => if n = 2 then .const else if n = 3 then .ctx else .func⟩ = .ok [[3], [1, 0], [2]] := by decide
+example : compile ⟨[(0, [1, 3]), (1, [0]), (2, [1])],
+    fun n => if n = 2 then .const else if n = 3 then .ctx else .func⟩ = .ok (.rejected (.usesContext 2) []) := by decide
+
 /-! ## T4 — evaluated exactly once, after everything reached, before any call -/
 
 /-- With an order the verified checker accepts and the two cycle tests passed,
